@@ -119,6 +119,8 @@ class Session(BusSession):
                     ops.append(['race', first, ['send', 'A', 'N', 'call', 0], 'C'])
         if self.is_open('B'):
             ops.append(['drain'] if self.stalled else ['stall'])
+        if not self.stalled:
+            ops.append(['reload'])
         # batches: a send by A together with an ownership change / send by C, both write orders
         if self.is_open('A') and self.is_open('C'):
             for o2 in (['req', 'C', 3], ['rel', 'C'], ['send', 'C', 'N', 'call', 0], ['send', 'C', 'uB', 'signal', 0]):
@@ -375,6 +377,8 @@ class Session(BusSession):
                 clause = 'out-of-order' if sorted(map(repr, got)) == sorted(map(repr, self.backlog)) else ('not-delivered' if len(got) < len(self.backlog) else 'delivered-twice')
                 out.append(Violation(clause, 'after-stall', 'after resuming, B received %r, processing order was %r' % (got, self.backlog), None))
             self.backlog = []
+        elif kind == 'reload':
+            self.reload_same(out, repr(op))
         elif kind == 'race':
             first, snd, victim = op[1], op[2], op[3]
             # a short message: the bus reads it in one go, so that it is complete in the very iteration that sees the victim's EOF
